@@ -363,7 +363,7 @@ static void run_equal(Choices &c, Ctx &ctx)
 	}
 	ctx.note("a=" + show(a, 500) + "\nb=" + show(b, 500) + "\nc=" + show(d, 300) + "\n" + how);
 	// string nodes reach their contents through different storage histories in the three trees
-	int sm[3] = {(int)c.pickn(3), (int)c.pickn(3), (int)c.pickn(3)};
+	int sm[3] = {(int)c.pickn(4), (int)c.pickn(4), (int)c.pickn(4)};
 	if (sm[0] != sm[1] || sm[1] != sm[2])
 		ctx.label("mixed_string_storage");
 	build_str_mode() = sm[0];
@@ -436,7 +436,7 @@ static void run_copy(Choices &c, Ctx &ctx)
 		o.max_nodes = 3 + c.len(40);
 		TreeGen g(c, o);
 		Val v = g.root();
-		build_str_mode() = (int)c.pickn(3);
+		build_str_mode() = (int)c.pickn(4);
 		src = build(v);
 		build_str_mode() = 0;
 		origin = "built tree " + show(v, 400);
